@@ -32,6 +32,13 @@ pub struct Case {
     pub form: rc::Form,
     /// 0 = deliver the packet in one chunk, else fixed-size chunks
     pub chunk: u16,
+    /// surroundings that must not matter: bits 0-6 vary the connection prologue of the run-phase
+    /// cases (see `connect_and_run_v`; with bits 4+5 the client's own CONNECT announces Maximum
+    /// Packet Size 256 and Receive Maximum 1 - only applied when the packet under test is < 200
+    /// bytes); bit 7: eight 40-byte QoS 0 PUBLISH packets without subscription identifier follow
+    /// the packet under test in the same transport read
+    #[serde(default)]
+    pub ambient: u8,
 }
 
 pub struct C02;
@@ -77,8 +84,26 @@ pub fn packet_of(i: &In) -> (rc::Packet, &'static str) {
     }
 }
 
-fn feed_chunked(w: &mut World, bytes: Vec<u8>, chunk: u16) {
+thread_local! {
+    /// (prologue variant, companions) of the case being run
+    static AMBIENT: std::cell::Cell<(u8, bool)> = const { std::cell::Cell::new((0, false)) };
+}
+
+fn run_prologue(w: &mut World, spec: ConnectSpec, plan: &WritePlan) -> Result<(), String> {
+    connect_and_run_v(w, spec, &default_connack(), plan, AMBIENT.with(|a| a.get().0))
+}
+
+fn feed_chunked(w: &mut World, mut bytes: Vec<u8>, chunk: u16) {
     w.tick();
+    if AMBIENT.with(|a| a.get().1) && w.ctx_running() {
+        // run() is serving: more packets arrive in the same read (they address no subscription)
+        for k in 0..8u8 {
+            bytes.extend(rc::encode(
+                &rc::Packet::Publish(rc::Publish { qos: 0, topic: format!("companion/{k}"), payload: vec![k; 24], ..Default::default() }),
+                &rc::Form::canonical(),
+            ));
+        }
+    }
     if chunk == 0 {
         w.reader.feed(bytes);
     } else {
@@ -109,6 +134,21 @@ fn run_case(case: &Case, exp_up: &UserProps, out: &mut Outcome) -> Result<(), Fa
     let mut w = World::new();
     let form = &case.form;
     let _ = take_accessor_issues();
+    {
+        let (pkt, _) = packet_of(&case.input);
+        let len = rc::encode(&pkt, form).len();
+        let mut pv = case.ambient & 0x7f;
+        if len >= 200 {
+            pv &= !32; // the scripted broker respects the client's own Maximum Packet Size
+        }
+        AMBIENT.with(|a| a.set((pv, case.ambient & 128 != 0)));
+        if case.ambient != 0 {
+            out.class("ambient-variation");
+        }
+        if case.ambient & 128 != 0 {
+            out.class("companion-packets-in-the-same-read");
+        }
+    }
     let r = (|| -> Result<(), Failure> {
         match &case.input {
             In::Connack { pkt, via_auth } => {
@@ -169,7 +209,7 @@ fn run_case(case: &Case, exp_up: &UserProps, out: &mut Outcome) -> Result<(), Fa
             In::Suback(a) | In::Unsuback(a) => {
                 let is_sub = matches!(case.input, In::Suback(_));
                 out.class(if is_sub { "suback" } else { "unsuback" });
-                connect_and_run(&mut w, ConnectSpec::default(), &default_connack(), &plan)
+                run_prologue(&mut w, ConnectSpec::default(), &plan)
                     .map_err(|e| Failure { sig: "C02/prologue".into(), msg: e })?;
                 let mut tr = Tracker::new();
                 tr.skip_existing(&mut w);
@@ -229,7 +269,7 @@ fn run_case(case: &Case, exp_up: &UserProps, out: &mut Outcome) -> Result<(), Fa
                 if a.reason >= 0x80 {
                     out.class("reason>=0x80");
                 }
-                connect_and_run(&mut w, ConnectSpec::default(), &default_connack(), &plan)
+                run_prologue(&mut w, ConnectSpec::default(), &plan)
                     .map_err(|e| Failure { sig: "C02/prologue".into(), msg: e })?;
                 let mut tr = Tracker::new();
                 tr.skip_existing(&mut w);
@@ -303,7 +343,7 @@ fn run_case(case: &Case, exp_up: &UserProps, out: &mut Outcome) -> Result<(), Fa
                     topic_alias_maximum: Some(65535),
                     ..Default::default()
                 };
-                connect_and_run(&mut w, cs, &default_connack(), &plan)
+                run_prologue(&mut w, cs, &plan)
                     .map_err(|e| Failure { sig: "C02/prologue".into(), msg: e })?;
                 let mut tr = Tracker::new();
                 tr.skip_existing(&mut w);
@@ -357,7 +397,7 @@ fn run_case(case: &Case, exp_up: &UserProps, out: &mut Outcome) -> Result<(), Fa
             }
             In::Pubrel(a) => {
                 out.class("pubrel");
-                connect_and_run(&mut w, ConnectSpec::default(), &default_connack(), &plan)
+                run_prologue(&mut w, ConnectSpec::default(), &plan)
                     .map_err(|e| Failure { sig: "C02/prologue".into(), msg: e })?;
                 let mut tr = Tracker::new();
                 tr.skip_existing(&mut w);
@@ -374,7 +414,7 @@ fn run_case(case: &Case, exp_up: &UserProps, out: &mut Outcome) -> Result<(), Fa
             }
             In::Pingresp => {
                 out.class("pingresp");
-                connect_and_run(&mut w, ConnectSpec::default(), &default_connack(), &plan)
+                run_prologue(&mut w, ConnectSpec::default(), &plan)
                     .map_err(|e| Failure { sig: "C02/prologue".into(), msg: e })?;
                 w.tick();
                 let op = w.start_op(0, OpSpec::Ping).unwrap();
@@ -390,7 +430,7 @@ fn run_case(case: &Case, exp_up: &UserProps, out: &mut Outcome) -> Result<(), Fa
             }
             In::Disconnect(d) => {
                 out.class("disconnect");
-                connect_and_run(&mut w, ConnectSpec::default(), &default_connack(), &plan)
+                run_prologue(&mut w, ConnectSpec::default(), &plan)
                     .map_err(|e| Failure { sig: "C02/prologue".into(), msg: e })?;
                 let bytes = rc::encode(&rc::Packet::Disconnect(d.clone()), form);
                 out.class(format!("disconnect-rl{}", bytes[1].min(2)));
@@ -525,14 +565,20 @@ impl Property for C02 {
     type Case = Case;
 
     fn strategy(_tier: Tier) -> BoxedStrategy<Case> {
-        (
+        let s = (
             input(true),
             gen::form(),
             // one transport chunk per packet: how reads are cut is C03's quantifier, not C02's
             // (packets larger than the receive buffer still span several reads)
             Just(0u16),
         )
-            .prop_map(|(input, form, chunk)| Case { input, form, chunk })
+            .prop_map(|(input, form, chunk)| Case { input, form, chunk, ambient: 0 })
+            .boxed();
+        (s, prop_oneof![2 => Just(0u8), 1 => 0u8..64, 1 => (0u8..64).prop_map(|v| v | 128), 1 => (0u8..16).prop_map(|v| v | 48 | 128)])
+            .prop_map(|(mut c, a)| {
+                c.ambient = a;
+                c
+            })
             .boxed()
     }
 
@@ -576,6 +622,7 @@ impl Property for C02 {
             },
             form: if m % 2 == 0 { rc::Form::canonical() } else { rev.clone() },
             chunk: 0,
+            ambient: 0,
         });
         let rev2 = rc::Form { order: vec![9, 8, 7, 6, 5, 4, 3, 2, 1, 0], short: false };
         let publishes = (0u32..(1 << 7)).flat_map(move |m| {
@@ -601,6 +648,7 @@ impl Property for C02 {
                     }),
                     form: if f % 2 == 0 { rc::Form::canonical() } else { rev2.clone() },
                     chunk: 0,
+                    ambient: 0,
                 }
             })
         });
@@ -612,25 +660,26 @@ impl Property for C02 {
                 let form = rc::Form { order: vec![], short };
                 for r in rc::PUBACK_REASONS {
                     let a = rc::Ack { pid: 1, reason: *r, reason_string: rs.clone(), user_props: up.clone() };
-                    acks.push(Case { input: In::Puback(a.clone()), form: form.clone(), chunk: 0 });
-                    acks.push(Case { input: In::Pubrec(a), form: form.clone(), chunk: 0 });
+                    acks.push(Case { input: In::Puback(a.clone()), form: form.clone(), chunk: 0, ambient: 0 });
+                    acks.push(Case { input: In::Pubrec(a), form: form.clone(), chunk: 0, ambient: 0 });
                 }
                 for r in rc::PUBCOMP_REASONS {
                     let a = rc::Ack { pid: 1, reason: *r, reason_string: rs.clone(), user_props: up.clone() };
-                    acks.push(Case { input: In::Pubcomp(a.clone()), form: form.clone(), chunk: 0 });
-                    acks.push(Case { input: In::Pubrel(rc::Ack { pid: 0x0102, ..a }), form: form.clone(), chunk: 0 });
+                    acks.push(Case { input: In::Pubcomp(a.clone()), form: form.clone(), chunk: 0, ambient: 0 });
+                    acks.push(Case { input: In::Pubrel(rc::Ack { pid: 0x0102, ..a }), form: form.clone(), chunk: 0, ambient: 0 });
                 }
                 for r in rc::SUBACK_REASONS {
-                    acks.push(Case { input: In::Suback(rc::AckList { pid: 1, reason_string: rs.clone(), user_props: up.clone(), reasons: vec![*r, 0] }), form: form.clone(), chunk: 0 });
+                    acks.push(Case { input: In::Suback(rc::AckList { pid: 1, reason_string: rs.clone(), user_props: up.clone(), reasons: vec![*r, 0] }), form: form.clone(), chunk: 0, ambient: 0 });
                 }
                 for r in rc::UNSUBACK_REASONS {
-                    acks.push(Case { input: In::Unsuback(rc::AckList { pid: 1, reason_string: rs.clone(), user_props: up.clone(), reasons: vec![*r] }), form: form.clone(), chunk: 0 });
+                    acks.push(Case { input: In::Unsuback(rc::AckList { pid: 1, reason_string: rs.clone(), user_props: up.clone(), reasons: vec![*r] }), form: form.clone(), chunk: 0, ambient: 0 });
                 }
                 for r in rc::SERVER_DISCONNECT_REASONS {
                     acks.push(Case {
                         input: In::Disconnect(rc::Disconnect { reason: *r, session_expiry: None, reason_string: rs.clone(), server_reference: (deco == 3).then(|| "srv".to_string()), user_props: up.clone() }),
                         form: form.clone(),
                         chunk: 0,
+                        ambient: 0,
                     });
                 }
                 for r in rc::CONNACK_REASONS {
@@ -638,6 +687,7 @@ impl Property for C02 {
                         input: In::Connack { pkt: rc::Connack { reason: *r, reason_string: rs.clone(), user_props: up.clone(), server_reference: (deco == 3).then(|| "srv".to_string()), ..Default::default() }, via_auth: short },
                         form: form.clone(),
                         chunk: 0,
+                        ambient: 0,
                     });
                 }
                 for r in rc::SERVER_AUTH_REASONS {
@@ -645,6 +695,7 @@ impl Property for C02 {
                         input: In::Auth { pkt: rc::Auth { reason: *r, method: Some("m".into()), data: (deco & 1 != 0).then(|| vec![9]), reason_string: rs.clone(), user_props: up.clone() }, via_auth: short },
                         form: form.clone(),
                         chunk: 0,
+                        ambient: 0,
                     });
                 }
             }
